@@ -86,7 +86,7 @@ pub struct LiveOpts {
     pub pps: u64,
     pub no_quality: bool,
     pub no_stall: bool,
-    /// client sends in bursts of 48 back-to-back datagrams (same average rate)
+    /// client sends in bursts of 32 back-to-back datagrams (same average rate)
     pub burst: bool,
     /// data loss (per mille) applied inside the receiver model (NAK / retransmission-free gaps)
     pub loss_permille: u64,
@@ -248,6 +248,8 @@ pub struct Session {
     // C07 wire state
     issued_ids: Vec<([u8; 256], u64, bool)>, // (id, reply sent time us, reply let through)
     reg1_out: Option<(usize, u64, bool)>,    // (link, arrival us, answered)
+    /// newest issued-id index seen in a REG2 from the sender, and when it was first seen
+    reg2_high: Option<(usize, u64)>,
     // C09
     ret_sent: HashMap<Vec<u8>, (u64, bool)>, // bytes -> (count sent to pristine links, internal)
     ret_got: HashMap<Vec<u8>, u64>,
@@ -433,6 +435,7 @@ impl Session {
             stats_total: 0,
             issued_ids: Vec::new(),
             reg1_out: None,
+            reg2_high: None,
             ret_sent: HashMap::new(),
             ret_got: HashMap::new(),
             client_known: false,
@@ -630,14 +633,20 @@ impl Session {
                             self.viol("C07", "C07.live.reg2-with-unissued-id", d);
                         }
                         Some(p) => {
-                            // not older than the newest id whose REG2 reply was let through more than 1.5 s ago
-                            let newest_settled = self.issued_ids.iter().rposition(|(_, sent, through)| *through && ts.saturating_sub(*sent) > 1_500_000 * self.o.slow);
-                            if let Some(ns) = newest_settled
-                                && p < ns
-                                && self.timing_reliable()
+                            // the adopted id never goes back: once a REG2 carrying id #k has been seen, no REG2 sent
+                            // later (kernel timestamps, 100 ms guard for frames of one broadcast round arriving on
+                            // different sockets) may carry an older one. (A wall-clock "must have adopted the newest
+                            // id by now" rule is unsound: a re-sent REG1 creates a second group whose REG2 reply the
+                            // sender lawfully ignores because nothing is pending any more.)
+                            if let Some((kmax, tmax)) = self.reg2_high
+                                && p < kmax
+                                && ts > tmax + 100_000
                             {
-                                let d = format!("REG2 from link {li} carries group id #{p} although id #{ns} was handed to the sender {} ms earlier: not the currently adopted id", ts.saturating_sub(self.issued_ids[ns].1) / 1000);
-                                self.viol("C07", "C07.live.reg2-with-stale-id", d);
+                                let d = format!("REG2 from link {li} carries group id #{p} although a REG2 carrying the newer id #{kmax} was sent {} ms earlier: the adopted id went back", (ts - tmax) / 1000);
+                                self.viol("C07", "C07.live.reg2-id-went-back", d);
+                            }
+                            if self.reg2_high.is_none_or(|(k, _)| p > k) {
+                                self.reg2_high = Some((p, ts));
                             }
                             self.count("C07.reg2_id_checked");
                         }
@@ -914,6 +923,11 @@ impl Session {
         let copies = if self.rng.chance(1, 8) { 5 + self.rng.usize_below(66) } else { 1 };
         for c in 1..copies {
             let mut b = bytes.clone();
+            // burst members are kept small: 70 full-size datagrams would fill the default receive buffer of the
+            // sender's uplink socket on their own, and a kernel drop only voids the session's completeness verdict
+            if b.len() > 200 && !rc::is_srtla_internal_return(&b) {
+                b.truncate(200);
+            }
             if b.len() >= 10 && !rc::is_srtla_internal_return(&b) {
                 // keep burst members distinct
                 let n = b.len();
@@ -941,6 +955,10 @@ impl Session {
             self.links[li].last_reply_us = now;
             if bytes.len() >= 2 {
                 self.note_return_sent(li, &bytes);
+            } else if self.client_known {
+                // below the property's two bytes: whether it is relayed is unspecified, but it is not "a datagram
+                // nobody sent"
+                self.ret_sent.entry(bytes.clone()).or_insert((0, false));
             }
         }
     }
@@ -1616,15 +1634,15 @@ impl Session {
                 let gap = 1_000_000 / self.o.pps.max(1);
                 let mut burst = 0;
                 if self.o.burst && self.next_send_us <= now {
-                    // one burst of 48, then silence for 48 gaps
-                    for _ in 0..48 {
+                    // one burst of 32, then silence for 32 gaps
+                    for _ in 0..32 {
                         let k = self.sent.len() as u64;
                         let d = client_datagram(self.magic, self.base_seq, k);
                         let ok = self.client.send_to(&d, self.srt_addr).is_ok();
                         self.sent.push(Sent { t_us: now, delivered: 0, countable: ok && !self.disturbed, on: [255; 4] });
                     }
                     self.client_known = true;
-                    self.next_send_us = now + 48 * gap;
+                    self.next_send_us = now + 32 * gap;
                 }
                 while !self.o.burst && self.next_send_us <= now && burst < 64 {
                     let k = self.sent.len() as u64;
@@ -1857,11 +1875,21 @@ pub fn gen_opts(rng: &mut Rng, scenario: Scenario, bin: &std::path::Path) -> Liv
         pps: *rng.pick(&[200u64, 800, 2000]),
         no_quality: rng.chance(1, 4),
         no_stall: rng.chance(1, 4),
-        burst: rng.chance(1, 3),
+        burst: false,
         loss_permille: *rng.pick(&[0u64, 0, 10, 40]),
         bin: bin.to_path_buf(),
         wrapper: Vec::new(),
         slow: 1,
+    }
+    .with_burst(rng)
+}
+
+impl LiveOpts {
+    fn with_burst(mut self, rng: &mut Rng) -> Self {
+        // bursts only at moderate rates: at 2000 datagrams/s two bursts inside one scheduling hiccup of the
+        // sender would overflow its SRT listener's default receive buffer
+        self.burst = self.pps <= 800 && rng.chance(1, 2);
+        self
     }
 }
 
